@@ -94,7 +94,7 @@ def w_lengths(arg):
     lo, hi = arg
     Blob = blob_class()
     rec = harness.Rec()
-    forms = ['str', 'bytes', 'bytearray', 'crlf', 'surround', 'crlf-bytes']
+    forms = ['str', 'bytes', 'bytearray', 'crlf', 'surround', 'crlf-bytes', 'nocrc', 'trailing-ws', 'nocrc-crlf']
     for n in range(lo, hi):
         for kind in ('zero', 'ff', 'rnd'):
             data = fill(n, kind)
@@ -116,6 +116,14 @@ def w_lengths(arg):
                 inp = text.replace('\n', '\r\n')
             if form == 'surround':
                 inp = 'Dear Bob,\nhere is the block:\n\n' + text + '\nregards\n-- \nAlice\n'
+            if form in ('nocrc', 'nocrc-crlf'):
+                # the checksum line is optional (RFC 4880 6.1 "MAY appear"; newer implementations leave it out)
+                inp = '\n'.join(l for l in text.split('\n') if not (l.startswith('=') and len(l) == 5))
+                if form == 'nocrc-crlf':
+                    inp = inp.replace('\n', '\r\n')
+            if form == 'trailing-ws':
+                # only white space may follow the armor header and tail lines (RFC 4880 6.2): mail transport adds it
+                inp = '\n'.join(l + (' \t' if l.startswith('-----') else '') for l in text.split('\n'))
             if form in ('bytes', 'crlf-bytes'):
                 inp = inp.encode('ascii')
             elif form == 'bytearray':
@@ -277,7 +285,7 @@ def w_objects(arg):
                         rec.finding('corruption', 'non-ascii-character-not-reported/' + label, case, 'character %r at %d: loaded silently as something else' % (alt, pos))
         # a block of another kind must be rejected
         others = {'PUBLIC KEY BLOCK': [pgpy.PGPMessage, pgpy.PGPSignature], 'PRIVATE KEY BLOCK': [pgpy.PGPMessage, pgpy.PGPSignature],
-                  'MESSAGE': [pgpy.PGPKey, pgpy.PGPSignature], 'SIGNATURE': [pgpy.PGPKey, pgpy.PGPMessage], 'SIGNED MESSAGE': [pgpy.PGPKey]}[label]
+                  'MESSAGE': [pgpy.PGPKey, pgpy.PGPSignature], 'SIGNATURE': [pgpy.PGPKey, pgpy.PGPMessage], 'SIGNED MESSAGE': [pgpy.PGPKey, pgpy.PGPSignature]}[label]
         for oc in others:
             try:
                 r = oc.from_blob(text)
